@@ -52,9 +52,16 @@ from . import c12 as C12
 ID = "C13"
 MOD = "harness.props.c13"
 T = "MetadorModel.C13."
+TB = "MetadorModel.Bridge.SubtypeFns."
+BRIDGE_THEOREMS = [
+    "traverse_unfold", "gen_has_literal", "gen_is_subtype", "gen_check_type_mergeable", "gen_check_allowed_types",
+    "gen_detect_field_overrides", "gen_check_overrides", "gen_new_policy", "gen_make_mandatory", "gen_add_const_fields",
+    "gen_override", "defineOk_eq", "gen_defineOk",
+    "gen_check_types_inner", "gen_check_types", "gen_check_types_loadPlugin", "checkTypesF_stable", "tableOk_tblDecl"]
 LEAN = dict(
-    modules=["MetadorModel.Props.C13"],
-    theorems=[T + n for n in [
+    modules=["MetadorModel.Props.C13", "MetadorModel.Bridge.SubtypeFns", "MetadorModel.Bridge.SubtypeFnsChecks",
+             "MetadorModel.Bridge.SubtypeFnsDeco", "MetadorModel.Bridge.SubtypeFnsWalk"],
+    theorems=[TB + n for n in BRIDGE_THEOREMS] + [T + n for n in [
         "isSubtype_sound", "Sub_refl", "child_valid_in_parent", "child_in_Sub_parent", "undeclared_widening_refused",
         "checked_overrides_are_subtypes", "installedStrings_sound_except", "qualhashsum_not_subtype",
         "classTable_unsound_with_qualhashsum", "optional_not_subtype", "literal_subtype_iff", "literal_superset_not_subtype",
@@ -66,6 +73,20 @@ LEAN = dict(
         "const_over_container_refused", "legacy_const_over_container_accepted"]],
     drivers=["drv_cod"],
 )
+
+
+
+def translate(ctx):
+    """regenerate Gen/SubtypeFns.lean from the current source of `is_subtype`, `check_types`, `check_overrides`,
+    `check_allowed_types`, the tail of `SchemaMagic.__new__` and the decorators (harness/translate_c13.py)"""
+    from .. import translate_c13
+    try:
+        return translate_c13.write(lean)
+    except Exception as e:  # noqa: BLE001
+        # leave no text of an earlier run (possibly of another tree) behind
+        translate_c13.write_stub(lean, "%s: %s" % (type(e).__name__, e))
+        raise
+
 
 F12_SIG = "C13:phantom-subclass-non-included-pattern:QualHashsumStr<HashsumStr"
 CONST_FORBID_SIG = "C13:const-field-under-forbidding-parent"
@@ -1135,6 +1156,15 @@ def focused_ovr():
     out.append(fam3(I, None, 1, extra_top="forbid", extra_child="allow"))
     out.append(fam3(I, None, 1, extra_top="forbid", extra_child="forbid"))
     out.append(fam3(I, None, 1, extra_top="ignore", extra_child="allow"))
+    # @make_mandatory over an inherited *constant* (a field of the pydantic model too, `field_parent_type` finds the
+    # `Any` that add_const_fields wrote): accepted by the source; over an unknown name / an own annotation: refused
+    # (corner found while bridging `make_mandatory` to the model, harness/translate_c13.py)
+    for mand in (["k"], ["k", "f"], ["zz"], ["k", "zz"]):
+        fam = base_table()
+        fam.append(_cd("Ga", None, fields=[["f", O(I), None]]))
+        fam.append(_cd("Pa", "Ga", consts=[["k", "v"]]))
+        fam.append(_cd("Ch", "Pa", mandatory=list(mand)))
+        out.append(dict(kind="ovr", fam=fam, root="Ch", seed=7, n_inst=12))
     return out
 
 
